@@ -4,7 +4,8 @@ C22 — unphased singleton handling only re-phases singletons and ignores input 
 A  theorems in Props/C22 over the Lean model of `_block_singletons` and of the node switch in `infer`
    (block edges belong to one unphased individual; a mutation's block is a block of its own individual; output
    node != input node only within an unphased individual / to the other node of a diploid one; no unphased
-   individual => no blocks => nodes unchanged; blocks are unchanged by any re-phasing of the input).
+   individual => no blocks => nodes unchanged; blocks are unchanged by any re-phasing of the input; the two
+   edges of a block are different edges when the insertion index is a permutation).
 B  the model's executable definitions against the real numba kernel `_block_singletons` (exact ints, spans
    bit-for-bit, AssertionError <-> bad-op) on arrays serialised from diploid tree sequences (plus array-level
    variants: unphased masks, stripped individuals) and their re-phasings; the model of the switch against the
@@ -19,7 +20,7 @@ from .. import blocks_corr as bc, common, gen
 from ..common import Result, Violation
 
 META = dict(
-    level='Lean theorems over an executable model of `_block_singletons` (the whole sweep: edges out / edges in / mutation loop, block flushing, final re-ordering) and of the mutation-node switch in `ExpectationPropagation.infer`, for all inputs on which the kernel does not assert: every block pairs two edges above nodes of one unphased individual; a mutation is only put in a block of its own individual; an output mutation node differs from the input node only by moving to the other node of its unphased diploid individual; with no unphased individual there are no blocks and no node changes; (blocks_stats, blocks_edges, mutations_block) are invariant under every re-phasing of the input mutation nodes. Model tied to the numba kernel by exact/bit-exact correspondence on generated diploid inputs and their re-phasings, the switch model tied to real infer() runs. Partial: that EP between the two reads mutation nodes only through the blocks is by inspection plus the end-to-end re-phasing oracle, not a theorem; tskit sort/validity by contract.',
+    level='Lean theorems over an executable model of `_block_singletons` (the whole sweep: edges out / edges in / mutation loop, block flushing, final re-ordering) and of the mutation-node switch in `ExpectationPropagation.infer`, for all inputs on which the kernel does not assert: every block pairs two different edges above nodes of one unphased individual; a mutation is only put in a block of its own individual; an output mutation node differs from the input node only by moving to the other node of its unphased diploid individual; with no unphased individual there are no blocks and no node changes; (blocks_stats, blocks_edges, mutations_block) are invariant under every re-phasing of the input mutation nodes. Model tied to the numba kernel by exact/bit-exact correspondence on generated diploid inputs and their re-phasings, the switch model tied to real infer() runs. Partial: that EP between the two reads mutation nodes only through the blocks is by inspection plus the end-to-end re-phasing oracle, not a theorem; tskit sort/validity by contract.',
     note='Lean kernel + {propext, Classical.choice, Quot.sound}; sampled correspondence with the numba kernels; argsort tie order and tskit by contract; EP congruence observed, not proved',
     technique='sweep invariants by induction over loop bodies (any control flow) + congruence + exact model/implementation correspondence',
     ref='§3 C22',
@@ -90,6 +91,7 @@ def eval_b_blocks(res, stats, model, prepared):
             stats["kernel_raised"][im[1]] = stats["kernel_raised"].get(im[1], 0) + 1
         else:
             stats["hyp_wellformed_and_accepted"] += 1
+            stats["hyp_insertion_index_injective"] += int(len(set(c["ins"].tolist())) == c["ins"].size)
             stats["blocks"] += len(im[1])
             stats["blocked_mutations"] += sum(1 for b in im[4] if b != bc.NULL)
         if not bc.same_blocks(im, mo):
@@ -212,7 +214,7 @@ def one_input(rng, res, stats, n_rephase):
 def run(ctx):
     res = Result()
     import tsdate  # noqa: F401
-    stats = dict(modes={}, fired={}, kernel_raised={}, fit_raised={}, date_raised={}, hyp_wellformed_and_accepted=0,
+    stats = dict(modes={}, fired={}, kernel_raised={}, fit_raised={}, date_raised={}, hyp_wellformed_and_accepted=0, hyp_insertion_index_injective=0,
                  blocks=0, blocked_mutations=0, switched_in_fits=0, switched_end_to_end=0, rephased_mutations=0)
     import time
     t0 = time.time()
@@ -240,7 +242,7 @@ def run(ctx):
 
 def search(ctx):
     res = Result()
-    stats = dict(modes={}, fired={}, kernel_raised={}, fit_raised={}, date_raised={}, hyp_wellformed_and_accepted=0,
+    stats = dict(modes={}, fired={}, kernel_raised={}, fit_raised={}, date_raised={}, hyp_wellformed_and_accepted=0, hyp_insertion_index_injective=0,
                  blocks=0, blocked_mutations=0, switched_in_fits=0, switched_end_to_end=0, rephased_mutations=0)
     rng = ctx.rng(4)
     for _ in range(ctx.n(6, 40)):
